@@ -331,6 +331,48 @@ def _mirsym():
         ["<Compact<T,U> as VecOperator>::execute", "<NonzeroCompact<T>>::execute", "<NonzeroCompactNullable<T>>::execute"], bounds="n in {0,1,3} (quick) / {0..4,9} slots, values/selectors/bitmap symbolic", spec=so2.CompactSpec(), stubs=["Scratchpad accessors -> obligation-owned buffers"])
     add("C04.f/nonzero_indices", "C04", "mirsym", Q, "NonzeroIndices<u8,i64>, NonzeroNonnullIndices<u32,i64>::execute: ascending offset-shifted positions of existing groups; running offset advances by the input length",
         ["<NonzeroIndices<T,U> as VecOperator>::execute", "<NonzeroNonnullIndices<T,U>>::execute"], bounds="(n, offset) in {(0,0),(3,0),(2,5)} quick + {(1,0),(4,1),(9,0)} thorough", spec=so2.NonzeroIndicesSpec(), stubs=["Scratchpad accessors -> obligation-owned buffers"])
+    from .specs import operators3 as so3
+    add("C05.b/top_n", "C05", "mirsym", Q, "TopN<T,C>::execute called batch by batch (streaming) then finalize: the row indices returned are min(n, rows) distinct rows in sort order and no unselected row sorts strictly before a selected one (ties in any order)",
+        ["<TopN<T,C> as VecOperator>::{execute,finalize}", "top_n::heap_replace", "comparator::<impl Comparator<T> for C>::{cmp,ordering}"],
+        bounds="n in 1..3 with 2-3 rows in 1-2 batches (quick) / n <= 4, <= 5 rows, <= 3 batches (thorough), all key values symbolic; T,C in {i64 asc, u8 desc} (+ i64 desc, u32 asc thorough); slice::sort_unstable_by modelled as an insertion sort driven by the real comparison closure",
+        spec=so3.TopNSpec(), stubs=["Scratchpad accessors -> obligation-owned buffers", "TopN::init -> Vec::with_capacity(n) buffers", "slice::sort_unstable_by -> insertion sort driven by the real closure"],
+        assumptions=["n >= 1 (LIMIT 0 never reaches TopN: outside the claim)"])
+    ostub = ["Scratchpad accessors -> obligation-owned buffers"]
+    add("C05.f/select", "C05", "mirsym", Q, "Select<i64> / SelectNullable<i64>::execute (payload columns following the ORDER BY / top-n permutation): output row j == input row indices[j], with its NULL flag",
+        ["<Select<T> as VecOperator>::execute", "<SelectNullable<T> as VecOperator>::execute"], bounds="(rows, indices) in {(3,2),(2,0),(3,3)} quick + {(1,1),(4,2),(10,3),(9,9)} thorough; data, indices (< rows) and null map symbolic",
+        spec=so3.SelectSpec(), stubs=ostub)
+    add("C05.f/select_nullable", "C05", "mirsym", Q, "SelectNullable<i64>::execute: values and NULL flags follow the index permutation",
+        ["<SelectNullable<T> as VecOperator>::execute", "bitvec::{BitVec::is_set,BitVecMut::set}"], bounds="same shapes as C05.f/select; null map bytes symbolic", spec=so3.SelectNullableSpec(), stubs=ostub)
+    add("C05.g/sort_by", "C05", "mirsym", Q, "SortBy<T,C>::execute: the output is a permutation of the row indices in sort order; the stable variant keeps tied rows in input order",
+        ["<SortBy<T,C> as VecOperator>::execute", "comparator::<impl Comparator<T> for C>::ordering"], bounds="0,1,3 rows (quick) / 0-4 (thorough), keys symbolic; (i64 asc stable), (u8 desc unstable) + (i64 desc stable), (u32 asc unstable) thorough; std sort modelled as an insertion sort driven by the real closure",
+        spec=so3.SortBySpec(), stubs=ostub + ["slice::sort_by / sort_unstable_by -> insertion sort driven by the real comparison closure"])
+    add("C05.g/sort_by_nullable", "C05", "mirsym", Q, "SortByNullable<T,C>::execute: NULL rows sort after every value ascending and before every value descending; otherwise as C05.g/sort_by",
+        ["<SortByNullable<T,C> as VecOperator>::execute", "Comparator::{ordering,is_less_than}"], bounds="as C05.g/sort_by, null map symbolic", spec=so3.SortByNullableSpec(), stubs=ostub + ["slice::sort_by / sort_unstable_by -> insertion sort driven by the real comparison closure"])
+    add("C01.i/delta_decode", "C01", "mirsym", Q, "DeltaDecode<T>::execute called batch by batch (query-side decoding of delta-coded integer columns): decoded value == running sum of the stored deltas, carried across batch boundaries",
+        ["<DeltaDecode<T> as VecOperator>::execute"], bounds="batches (2), (1,2) quick + (0), (1), (3), (2,0,1) thorough; T in {u8, i64} (+u16,u32); deltas and the initial value symbolic, under the precondition that every running sum is an i64 (the values the encoder stored)",
+        spec=so3.DeltaDecodeSpec(), stubs=ostub, assumptions=["every prefix sum of the stored deltas is representable as i64 (they are the original column values)"])
+    add("C04.g/bitpack_roundtrip", "C04", "mirsym", Q, "composite group keys: ParameterizedVecVecIntegerOperator<BitShiftLeftAdd> (lo + (hi << w)) followed by BitUnpackOperator (shift 0 / width w, shift w / width w2) recovers both components, for every width split",
+        ["<ParameterizedVecVecIntegerOperator<BitShiftLeftAdd> as VecOperator>::execute", "BitShiftLeftAdd::perform", "<BitUnpackOperator as VecOperator>::execute"],
+        bounds="0,2 rows (quick) / 0-3 (thorough); widths w, w2 >= 1 symbolic with w + w2 <= 63, 0 <= lo < 2^w, 0 <= hi < 2^w2 symbolic", spec=so3.BitPackRoundTripSpec(), stubs=ostub,
+        assumptions=["components are non-negative and below 2^width; total width <= 63 (what try_bitpacking guarantees; its width arithmetic uses f64 log2 and is not encoded)"])
+    for pid, tag in (("C05", "C05.h"), ("C04", "C04.h")):
+        add(f"{tag}/fuse_nulls_i64", pid, "mirsym", Q, "FuseNullsI64::execute: value if present, the in-band NULL marker otherwise (so that NULL sorts last / groups together)",
+            ["<FuseNullsI64 as VecOperator>::execute"], bounds="0,3,9 rows (quick) / 0,1,3,8,9,17 (thorough); values and null map symbolic", spec=so3.FuseNullsI64Spec(), stubs=ostub)
+        add(f"{tag}/unfuse_nulls_i64", pid, "mirsym", Q, "UnfuseNullsI64::execute: a row is present exactly when its fused value is not the NULL marker",
+            ["<UnfuseNullsI64 as VecOperator>::execute"], bounds="0,3,8 rows (quick) / 0,1,3,7,8,9,16 (thorough); fused values symbolic", spec=so3.UnfuseNullsI64Spec(), stubs=ostub)
+    add("C04.i/compact_nullable", "C04", "mirsym", Q, "CompactNullable / CompactWithNullable / CompactNullableNullable<i64,u8>::execute: exactly the aggregate slots of existing groups survive, in order, each with its own NULL flag",
+        ["<CompactNullable<T,U> as VecOperator>::execute", "<CompactWithNullable<T,U>>::execute", "<CompactNullableNullable<T,U>>::execute", "bitvec::{is_set,set,unset}"],
+        bounds="0,3,9 slots (quick) / 0-4,9 (thorough); values, selectors and both null maps symbolic", spec=so3.CompactNullableFamilySpec(), stubs=ostub)
+    add("C04.j/fuse_int_nulls", "C04", "mirsym", Q, "nullable integer group keys: FuseIntNulls<T>{offset = -min + 1} then UnfuseIntNulls<T>{offset}: NULL <-> key 0, values keep their identity, distinct values get distinct keys, no overflow for any value in the column's encoding range",
+        ["<FuseIntNulls<T> as VecOperator>::execute", "<UnfuseIntNulls<T> as VecOperator>::execute"],
+        bounds="0,2 rows (quick) / 0-3,9 (thorough); T in {u8, i64} (+u16,u32); encoding range (min <= 0 <= .. max) symbolic, values within it, offset as the planner computes it",
+        spec=so3.FuseIntNullsSpec(), stubs=ostub, assumptions=["the planner passes offset = -min + 1 for the column's encoding range (min, max), min <= 0 (query_plan.rs, read not executed)"])
+    from .specs import planner as spl
+    add("C04.j/group_key_width", "C04", "mirsym", Q, "compile_grouping_key (single nullable integer GROUP BY column): the key handed to FuseIntNulls has an integer type wide enough for max + offset (the planner widens to i64 otherwise) and the offset is -min + 1 (min <= 0) or 0",
+        ["engine::planning::query_plan::compile_grouping_key (slice: after encoding_range(..) up to the fuse_int_nulls call)", "TypedBufferRef::is_nullable", "EncodingType::{is_nullable,non_nullable}"],
+        bounds="key types NullableU8/U16/U32/I64; all encoding ranges (min <= max, within the type; |min|,|max| < 2^62 for i64); planner state otherwise havoc'd; QueryPlanner::cast stubbed by its type rule (base=provided;null=input); API replay mandatory for counterexamples",
+        spec=spl.GroupKeyWidthSpec(), stubs=["QueryPlanner::cast -> TypedBufferRef of the provided base type, nullable iff the input is", "QueryPlanner::fuse_int_nulls -> end of slice (arguments recorded)", "logging and other planner calls -> havoc"],
+        assumptions=["i64 encoding ranges stay within (-2^62, 2^62) (the planner's range arithmetic is unchecked beyond that: outside the claim)"])
     from .specs import xorfloat as sx
     add("C16.b/xor_float", "C16", "mirsym", Q,
         "xor_float::double::encode then decode: every f64 comes back bit-exact (mantissa None) or with sign, exponent and the requested leading mantissa bits (mantissa Some(m)); covers the first-window and the window-reuse branch",
